@@ -133,6 +133,10 @@ func sustained(idx int64, r *rand.Rand) {
 		spec.Funcs = limgen.VegasFuncs[r.IntN(len(limgen.VegasFuncs))] // every one of them steps down by at least 1 per drop
 		rt.Count("vegas_cases_with_caller_supplied_functions", 1)
 	}
+	if (kind == "vegas" || kind == "gradient") && r.IntN(8) == 0 {
+		spec = spec.WithDefaultMax([]string{"0", "-1"}[r.IntN(2)]) // "give me the default" maximum: the configured minimum still holds
+		rt.Count("cases_asking_for_the_default_maximum", 1)
+	}
 	l := spec.New(nil, "c06")
 	hist := prefix(r, l, r.IntN(120))
 	e0 := l.EstimatedLimit()
